@@ -331,6 +331,22 @@ func barePatterns(s, v string) []string {
 			}
 			return
 		}
+		// application of an uninterpreted spec function / pure method to the bare variable
+		if (strings.HasPrefix(parts[0], "|spec:") || strings.HasPrefix(parts[0], "|m:")) && patternOK(e) {
+			bare := false
+			for _, a := range parts[1:] {
+				if a == v {
+					bare = true
+				}
+			}
+			if bare {
+				if !seen[e] {
+					seen[e] = true
+					out = append(out, e)
+				}
+				return
+			}
+		}
 		for _, p := range parts[1:] {
 			walk(p)
 		}
